@@ -145,6 +145,14 @@ class QEval:
         k = pat[0]
         if k == 'not':
             return not self.pat_matches(pat[1], v)
+        if k == 'guarded':
+            # `pat if guard`: the guard term was evaluated with the pattern's bindings in scope
+            if not self.pat_matches(pat[1], v):
+                return False
+            g = self.ev(pat[2])
+            if isinstance(g, bool):
+                return g
+            raise Undecided('non-bool guard')
         if k in ('wild', 'bind'):
             return True
         if k == 'lit':
